@@ -325,6 +325,8 @@ def roots(v, acc=None):
         if v.ops:
             acc.add("op:mutated")
         for o in v.ops:
+            if o[0] == "outarg" and isinstance(o[1], str):
+                acc.add("call:" + o[1])       # filled in by that function (`f(&src, &mut out)?` for `let out = f(&src)?`)
             for x in o[2:]:
                 if isinstance(x, V):
                     roots(x, acc)
